@@ -24,6 +24,7 @@ valid_case = generic.valid_case
 
 def cases(seed, tier):
     yield from generic.interruption_cases(ID, seed, tier, dev_faults=0.2)
+    yield from generic.resume_window_cases(ID, seed, tier)
 
 
 def check(res):
@@ -45,6 +46,10 @@ def check(res):
             continue
         if c.api in ("call", "resume", "abort", "stop", "halt") and c.state not in ("idle", "paused"):
             out.append(V("transient-state-after-call", f"{c.api} returned with state {c.state}", api=c.api, state=c.state))
+        # a public call ends by returning, by RunEngineInterrupted, by TransitionError (request illegal in that
+        # state) or with the plan's own failure (here: an injected device fault or a failed status)
+        if c.outcome == "raise" and not str(c.exc).startswith(("RunEngineInterrupted", "TransitionError", "Injected", "FailedStatus", "PlanError")):
+            out.append(V("unexpected-exception-from-api:" + str(c.exc), f"{c.api} raised {c.exc}: {c.end.d['text'][:200]}", api=c.api, exc=c.exc))
     for e in v.of("inject_end"):
         if e.d["state"] not in ("idle", "paused", "running"):
             res.notes["requester_returned_in_transient_state"] = res.notes.get("requester_returned_in_transient_state", 0) + 1
